@@ -20,6 +20,7 @@ type Op struct {
 	In       []int  `json:"in"`
 	Init     bool   `json:"init"`
 	Trace    bool   `json:"trace,omitempty"`
+	TraceAt  int    `json:"trace_at,omitempty"`
 	NestAt   int    `json:"nest_at,omitempty"`
 	NestIn   []int  `json:"nest_in,omitempty"`
 	Parses   []Op   `json:"parses,omitempty"`
